@@ -97,27 +97,40 @@ def entryOk (cfg : Cfg) (st : St) (scene e : Nat) (x : Entry) : Bool :=
   | some t => t.scene == scene && decide (e - t.lastUpd ≤ cfg.maxIdle)
   | none => false
 
+/-- the effect of one pick: the state afterwards and the record returned for the detection -/
+def applyPick (cfg : Cfg) (scene e : Nat) (st : St) (d : Det) (p : Pick) : Option (St × Rec) :=
+  let st1 := if cfg.batchIds then { st with nextId := st.nextId + 1 } else st
+  match p with
+  | .cont tid vis =>
+    match findLive st1 tid with
+    | none => none
+    | some t =>
+      let t' : Trk := { t with lastUpd := e, len := t.len + 1, custom := d.custom,
+                               obsH := pushBounded t.obsH d.tok cfg.histLen, visual := vis }
+      some ({ st1 with live := st1.live.map (fun x => if x.id == tid then t' else x) },
+            { id := tid, epoch := e, scene := t'.scene, len := t'.len, custom := t'.custom, tok := d.tok, visual := vis })
+  | .fresh id =>
+    let st2 := if cfg.batchIds then st1 else { st1 with nextId := st1.nextId + 1 }
+    let t' : Trk := { id := id, scene := scene, lastUpd := e, len := 1, custom := d.custom, obsH := [d.tok], visual := false }
+    some ({ st2 with live := st2.live ++ [t'] },
+          { id := id, epoch := e, scene := scene, len := 1, custom := d.custom, tok := d.tok, visual := false })
+
 /-- apply the picks in detection order -/
-def applyPicks (cfg : Cfg) (scene e : Nat) : List Det → List Pick → St → List Rec → Option (St × List Rec)
-  | [], [], st, acc => some (st, acc.reverse)
-  | d :: ds, p :: ps, st, acc =>
-    let st1 := if cfg.batchIds then { st with nextId := st.nextId + 1 } else st
-    match p with
-    | .cont tid vis =>
-      match findLive st1 tid with
+def applyPicks (cfg : Cfg) (scene e : Nat) : List Det → List Pick → St → Option (St × List Rec)
+  | [], [], st => some (st, [])
+  | d :: ds, p :: ps, st =>
+    match applyPick cfg scene e st d p with
+    | none => none
+    | some (st1, r) =>
+      match applyPicks cfg scene e ds ps st1 with
       | none => none
-      | some t =>
-        let t' : Trk := { t with lastUpd := e, len := t.len + 1, custom := d.custom,
-                                 obsH := pushBounded t.obsH d.tok cfg.histLen, visual := vis }
-        let st2 := { st1 with live := st1.live.map (fun x => if x.id == tid then t' else x) }
-        applyPicks cfg scene e ds ps st2
-          ({ id := tid, epoch := e, scene := t'.scene, len := t'.len, custom := t'.custom, tok := d.tok, visual := vis } :: acc)
-    | .fresh id =>
-      let st2 := if cfg.batchIds then st1 else { st1 with nextId := st1.nextId + 1 }
-      let t' : Trk := { id := id, scene := scene, lastUpd := e, len := 1, custom := d.custom, obsH := [d.tok], visual := false }
-      applyPicks cfg scene e ds ps { st2 with live := st2.live ++ [t'] }
-        ({ id := id, epoch := e, scene := scene, len := 1, custom := d.custom, tok := d.tok, visual := false } :: acc)
-  | _, _, _, _ => none
+      | some (st2, rs) => some (st2, r :: rs)
+  | _, _, _ => none
+
+/-- structural duplicate-freeness test -/
+def nodupB : List Nat → Bool
+  | [] => true
+  | a :: l => !l.contains a && nodupB l
 
 /-- ids a `fresh` pick may carry: the simple trackers issue `nextId+1, nextId+2, …` in detection order;
 the batch trackers issue, for the i-th candidate of the call, some id of the batch's range
@@ -126,7 +139,7 @@ def freshIdsOk (cfg : Cfg) (st : St) (lo hi : Nat) (picks : List Pick) : Bool :=
   let ids := picks.filterMap (fun p => match p with | .fresh id => some id | _ => none)
   if cfg.batchIds then
     ids.all (fun id => decide (lo < id) && decide (id ≤ hi) && !(st.live.any (fun t => t.id == id))) &&
-    (ids.zip ids.tail).all (fun (a, b) => decide (a < b))
+    nodupB ids
   else ids == (List.range ids.length).map (fun i => st.nextId + 1 + i)
 
 /-- positional part of the choice as a partial assignment aligned with the detections -/
@@ -143,7 +156,7 @@ def validChoice (cfg : Cfg) (st : St) (scene e : Nat) (n : Nat) (table : List En
   ((List.range n).zip conts).all (fun (i, c) => match c with
     | some tid => table.any (fun x => x.det == i && x.tid == tid && decide (cfg.thr ≤ x.w))
     | none => true) &&
-  ((conts.filterMap id).eraseDups.length == (conts.filterMap id).length) &&
+  nodupB (conts.filterMap id) &&
   -- optimality over the detections that have entries (others can only be unmatched)
   (let qs := queries es
    let asg := qs.map (fun q => (conts.getD (q - 1) none))
@@ -155,13 +168,25 @@ def predictScene (cfg : Cfg) (st : St) (scene : Nat) (dets : List Det) (table : 
   let e := epochOf st scene + 1
   let st2 := setEpoch st scene e
   if validChoice cfg st2 scene e dets.length table picks && freshIdsOk cfg st2 lo hi picks then
-    applyPicks cfg scene e dets picks st2 []
+    applyPicks cfg scene e dets picks st2
   else none
 
 /-- `predict` of the simple trackers: countdown, then the scene step -/
 def predict (cfg : Cfg) (st : St) (scene : Nat) (dets : List Det) (table : List Entry) (picks : List Pick) :
     Option (St × List Rec) :=
   predictScene cfg (awStep cfg st) scene dets table picks 0 0
+
+/-- the scenes of one batch, one after the other -/
+def batchScenes (cfg : Cfg) (lo hi : Nat) : List (Nat × List Det × List Entry × List Pick) → St →
+    Option (St × List (Nat × List Rec))
+  | [], st => some (st, [])
+  | (scene, dets, table, picks) :: rest, st =>
+    match predictScene cfg st scene dets table picks lo hi with
+    | none => none
+    | some (st', recs) =>
+      match batchScenes cfg lo hi rest st' with
+      | none => none
+      | some (st'', out) => some (st'', (scene, recs) :: out)
 
 /-- `predict` of the batch trackers: countdown once, then every scene of the batch (in the order
 the voting results are taken here; `C06_commute`: the order does not matter) -/
@@ -170,13 +195,7 @@ def predictBatch (cfg : Cfg) (st : St) (scenes : List (Nat × List Det × List E
   let st1 := awStep cfg st
   let lo := st1.nextId
   let hi := lo + (scenes.map (fun s => s.2.1.length)).foldl (· + ·) 0
-  let rec go : List (Nat × List Det × List Entry × List Pick) → St → List (Nat × List Rec) → Option (St × List (Nat × List Rec))
-    | [], st, acc => some ({ st with nextId := hi }, acc.reverse)
-    | (scene, dets, table, picks) :: rest, st, acc =>
-      match predictScene cfg st scene dets table picks lo hi with
-      | none => none
-      | some (st', recs) => go rest st' ((scene, recs) :: acc)
-  go scenes st1 []
+  (batchScenes cfg lo hi scenes st1).map (fun r => ({ r.1 with nextId := hi }, r.2))
 
 /-- `skip_epochs_for_scene`: advance the scene's epoch, then `auto_waste()` -/
 def skip (cfg : Cfg) (st : St) (scene n : Nat) : St :=
